@@ -18,7 +18,8 @@ RULE = ('Sandbox = root/outside/{canary file, canary dir/file} + root/store/ wit
         'key dirs to outside files/dirs (live and dangling), optionally a symlinked storage dir. Keys and filenames come from an '
         'adversarial grammar (empty, ".", "..", both separators, a/../b, absolute paths, names of existing symlinks/keys/files, '
         'NUL, newlines, unicode look-alike slashes, 300-char names) plus valid names. Sequences of 1-6 operations: exists, '
-        'file_handle in modes r,w,a,x,rb,wb,ab,r+,w+ (followed by a read and/or write and close), delete, find_keys. Oracle: full '
+        'file_handle in modes r,w,a,x,rb,wb,ab,r+,w+ (followed by a read and/or write and close), delete, find_keys, and '
+        'environment steps that turn a previously used key name into a symlink between two calls. Oracle: full '
         'recursive snapshot (type, size, content hash, link target) before/after each operation; everything under outside/ must '
         'be byte-identical; inside store/ the only differences allowed are creation of the one key directory D = the direct child '
         'of the storage dir the key names, regular files directly inside D (file_handle), or removal of D and what is below it '
@@ -149,6 +150,21 @@ def check(spec: dict) -> core.CaseResult:
             kind = op['op']
             key = op.get('key')
             filename = op.get('filename')
+            if kind == 'plant':
+                # the environment changes between two storage calls (done by the harness, not by labtech): the name of a key that
+                # has been used before now is a symlink
+                p = os.path.join(store_real, op['name'])
+                try:
+                    if os.path.islink(p) or os.path.isfile(p):
+                        os.unlink(p)
+                    elif os.path.isdir(p):
+                        shutil.rmtree(p)
+                    os.symlink(LINKS_KEY[op['as']].replace('@ABS@', root), p)
+                    applied.append(f'plant({op["name"]!r} -> {LINKS_KEY[op["as"]]})')
+                    nontrivial = True
+                except OSError as ex:
+                    applied.append(f'plant failed: {ex}')
+                continue
             before = snapshot(root)
             D = named_dir(store_real, key) if kind != 'find_keys' else None
             raised = None
@@ -236,6 +252,8 @@ def check(spec: dict) -> core.CaseResult:
     seen = set()
     findings = [f for f in findings if not (f.signature in seen or seen.add(f.signature))]
     labels = sorted({f'op={o["op"]}' for o in spec['ops']})
+    if any(o['op'] == 'plant' for o in spec['ops']) and any(o['op'] != 'plant' and o.get('key') == p_['name'] for p_ in spec['ops'] if p_['op'] == 'plant' for o in spec['ops']):
+        labels.append('key-used-before-and-after-becoming-a-symlink')
     return core.CaseResult(findings=findings, nontrivial=nontrivial, labels=tuple(labels), summary={'ops': applied})
 
 
@@ -268,6 +286,8 @@ def op():
         st.builds(lambda k, f, m: {'op': 'file_handle', 'key': k, 'filename': f, 'mode': m}, st.sampled_from(['k1', 'lnk_sibling', 'newkey']),
                   st.sampled_from(sorted(LINKS_FILE) + ['f.txt', 'new.bin']), st.sampled_from(MODES)),
         st.just({'op': 'find_keys'}),
+        st.builds(lambda n, a: {'op': 'plant', 'name': n, 'as': a}, st.sampled_from(['k1', 'k2', 'newkey', 'K-9_x']),
+                  st.sampled_from(['lnk_out_dir', 'lnk_out_file', 'lnk_dangling', 'lnk_self', 'lnk_nested', 'lnk_abs'])),
     )
 
 
